@@ -289,6 +289,106 @@ pub fn verify_dir(src: &Path, exp: &Expected, cov: &mut Cov, label: &str) -> Res
     Ok(())
 }
 
+/// Directories in which the pinned release's client re-creation race happened (finding F1: two
+/// first requests of one client, the second `new_client` replaces the client row): the client has
+/// two children of one parent and an abandoned branch. Whatever the pinned release served for such a
+/// directory - which child of the forked parent, found / not-found / gone for every id on either
+/// branch, the snapshot - the current code must serve the same before and after appending
+/// (differential against the pinned code's own answers; C07: a version that has been served as the
+/// child of its parent is served for ever, also across the upgrade).
+pub fn legacy_fork_part(property: &str, seed: u64, thorough: bool, cov: &mut Cov) -> Option<Found> {
+    let n = if thorough { 120 } else { 24 };
+    for i in 0..n {
+        let mut rng = Rng::new(seed).fork(0xF0_0000 + i as u64);
+        let d = ScratchDir::new("c19f");
+        let client = rng.uuid();
+        let a_len = 1 + i % 3;
+        let b_len = 1 + (i / 3) % 3;
+        let base = if i % 4 == 3 { rng.uuid() } else { Uuid::nil() };
+        let snap_on_a = i % 5 == 1;
+        let snap_on_b = i % 7 == 2;
+        let fail = |m: String| Some(Found { property: property.into(), signature: format!("{property}:legacy-fork {}", m.split_whitespace().take(6).collect::<Vec<_>>().join(" ")), msg: format!("[directory with a re-created client, abandoned branch of {a_len}, live branch of {b_len}, base {}] {m}", if base.is_nil() { "nil" } else { "non-nil" }), replay: json!({"origin": "legacy-fork", "case": 800_000 + i}) });
+        let mut queries: Vec<Req> = vec![Req::GetChild { parent: Uuid::nil() }, Req::GetChild { parent: base }, Req::GetChild { parent: rng.uuid() }, Req::GetSnapshot];
+        let mut before: Vec<(Req, Resp)> = vec![];
+        let latest;
+        {
+            let server = match crate::pinned::new_server(d.path(), 14, 100) {
+                Ok(s) => s,
+                Err(e) => return fail(format!("INCONCLUSIVE pinned writer: {e:#}")).map(|mut f| { f.signature = "harness-error".into(); f }),
+            };
+            let mut ids: Vec<Uuid> = vec![];
+            let mut parent = base;
+            for k in 0..a_len {
+                match crate::pinned::exec(&server, client, &Req::AddVersion { parent, data: format!("abandoned-{k}").into_bytes() }) {
+                    Resp::AddOk { vid, .. } => { ids.push(vid); parent = vid; }
+                    _ => return None,
+                }
+            }
+            if snap_on_a {
+                let _ = crate::pinned::exec(&server, client, &Req::AddSnapshot { vid: parent, data: b"snapshot on the abandoned branch".to_vec() });
+            }
+            // the second first request's client creation
+            {
+                let mut t = server.txn(client).ok()?;
+                t.new_client(Uuid::nil()).ok()?;
+                t.commit().ok()?;
+            }
+            let mut parent = base;
+            for k in 0..b_len {
+                match crate::pinned::exec(&server, client, &Req::AddVersion { parent, data: format!("live-{k}").into_bytes() }) {
+                    Resp::AddOk { vid, .. } => { ids.push(vid); parent = vid; }
+                    _ => return None,
+                }
+            }
+            if snap_on_b {
+                let _ = crate::pinned::exec(&server, client, &Req::AddSnapshot { vid: parent, data: b"snapshot on the live branch".to_vec() });
+            }
+            latest = parent;
+            for v in &ids {
+                queries.push(Req::GetChild { parent: *v });
+            }
+            for q in &queries {
+                before.push((q.clone(), crate::pinned::exec(&server, client, q)));
+            }
+        }
+        cov.hit(format!("legacy-fork-directory:abandoned{a_len}:live{b_len}:{}", if base.is_nil() { "nil-base" } else { "id-base" }));
+        let kind = if i % 2 == 0 { Kind::SQL_LIB } else { Kind::SQL_HTTP };
+        let mut subj = match Subject::open_dir(kind, Config::default(), ScratchDir(d.path().to_path_buf())) {
+            Ok(s) => s,
+            Err(e) => return fail(format!("the current code cannot open the directory: {e:#}")),
+        };
+        for round in 0..2 {
+            for (q, want) in &before {
+                if round == 1 && matches!(q, Req::GetChild { parent } if *parent == latest) {
+                    continue;
+                }
+                if round == 1 && matches!(q, Req::GetSnapshot) {
+                    continue;
+                }
+                cov.evaluations += 1;
+                let got = subj.exec(client, q);
+                if got.short() != want.short() || got != *want {
+                    return fail(format!("{} was answered {} by the pinned release and is answered {} by the current code{}", match q { Req::GetChild { parent } => format!("GetChildVersion({})", if *parent == base { "the forked parent".to_string() } else { parent.to_string() }), o => o.name().to_string() }, want.short(), got.short(), if round == 1 { " after appending to the live branch" } else { "" }));
+                }
+            }
+            if round == 0 {
+                let mut par = latest;
+                for k in 0..2 {
+                    match subj.exec(client, &Req::AddVersion { parent: par, data: format!("appended-{k}").into_bytes() }) {
+                        Resp::AddOk { vid, .. } => par = vid,
+                        o => return fail(format!("cannot append to the live branch: {}", o.short())),
+                    }
+                }
+                if let Err(e) = subj.reopen() {
+                    return fail(format!("the directory cannot be reopened after appending: {e:#}"));
+                }
+            }
+        }
+        cov.count("legacy_fork_answers_compared", (before.len() * 2) as u64);
+    }
+    None
+}
+
 /// Directories "left behind by a crash" of the pinned release at its very beginning: the pinned
 /// storage's first initialisation and first requests are recorded through the VFS shim; at every
 /// file-system event the process-crash image and some power-loss images are opened by the current
@@ -502,6 +602,18 @@ pub fn shard_run(tier: &str, seed: u64, replay_case: Option<usize>, shard: Shard
             out.found.push(f);
             out.cov = cov;
             return out;
+        }
+    }
+    // ---- directories in which the pinned release's client re-creation race happened
+    if replay_case.map(|c| c >= 800_000 && c < 900_000).unwrap_or(shard.k == 5 % shard.n) {
+        if let Some(f) = legacy_fork_part("C19", seed, thorough, &mut cov) {
+            if f.signature == "harness-error" {
+                out.errors.push(f.msg);
+            } else {
+                out.found.push(f);
+                out.cov = cov;
+                return out;
+            }
         }
     }
     // ---- served by the current executable under several spellings of the directory
